@@ -124,6 +124,11 @@ ExponentialCases ==
          e |-> E(RMul(a, RPow(R(k), m)), RMul(RMul(a, <<m, 2>>), RPow(R(k), m - 2)), RMul(RMul(a, RMul(<<m, 2>>, <<m - 2, 2>>)), RPow(R(k), m - 4)))] :
             a \in {R(3), <<-5, 2>>}, m \in {-3, -1, 1, 3, 5}, k \in {1, 2, 3}}
 
+\* A r^n with a non-negative integer n is regular at r = 0 (value, slope and curvature are those of the monomial)
+ExponentialAtZero ==
+  {[form |-> "exponential", A |-> a, n |-> <<n, 1>>, x |-> RZero,
+    e |-> E(IF n = 0 THEN a ELSE RZero, IF n = 1 THEN a ELSE RZero, IF n = 2 THEN RMul(R(2), a) ELSE RZero)] : a \in {R(3), <<-5, 2>>}, n \in 0..4}
+
 \* exact special points
 SpecialCases ==
   {[form |-> "morse", p |-> <<g, rs, d>>, x |-> rs, v |-> RNeg(d)] : g \in {R(1), <<3, 2>>}, rs \in {R(2), <<5, 4>>}, d \in {R(3), <<-1, 2>>}}   \* V(r*) = -D
@@ -146,7 +151,7 @@ Buck4Cases ==
       c \in {R(0), R(32), R(134), R(-5)} \cup (IF Deep THEN {<<7, 2>>} ELSE {}), kn \in Buck4Knots}
 
 Emit == IF "EMIT" \in DOMAIN IOEnv /\ IOEnv.EMIT = "1"
-        THEN /\ ndJsonSerialize(IOEnv.VERIF_OUT \o "/exact.ndjson", SetToSeq(ExactCases \cup ExponentialCases))
+        THEN /\ ndJsonSerialize(IOEnv.VERIF_OUT \o "/exact.ndjson", SetToSeq(ExactCases \cup ExponentialCases \cup ExponentialAtZero))
              /\ ndJsonSerialize(IOEnv.VERIF_OUT \o "/special.ndjson", SetToSeq(SpecialCases))
              /\ ndJsonSerialize(IOEnv.VERIF_OUT \o "/sig.ndjson", <<[n \in Names |-> Sig[n]]>>)
              /\ ndJsonSerialize(IOEnv.VERIF_OUT \o "/buck4.ndjson", SetToSeq(Buck4Cases))
